@@ -254,8 +254,9 @@ fn messages(v: V, list: &[Inst], universe: &[Inst], salt: usize) -> Vec<Msg> {
 }
 
 fn same<T>(_: PhantomData<T>, _: PhantomData<T>) {}
-/// also exercise the clauses that are known to fail on the unchanged tree
-fn known() -> bool { std::env::var("VX_C13_KNOWN").is_ok() }
+/// clauses that failed on the tree as found (Kraken lower-case computed pair, OKX ISO week-year expiry): both were repaired by `fix:` commits
+/// (see /verif/KNOWN_FINDINGS) and are checked unconditionally - a regression is reported like any other violation
+fn known() -> bool { true }
 
 macro_rules! venue {
     ($st:expr, $lists:expr, $v:expr, $sk:expr, $Ex:ty, $K:ty, $kind:expr, $M:ty, $computed_markets:expr) => {{
@@ -291,7 +292,7 @@ fn universe(v: V) -> Vec<Inst> {
         V::GateFutUsd | V::GateFutBtc => { let mut u = of(IK::Fut(E1), 5); u.push(Inst { base: "btc", quote: "usdt", kind: IK::Fut(E2) }); u.push(Inst { base: "eth", quote: "usdt", kind: IK::Fut(E2) }); u }
         V::GateOpt => vec![opt("btc", true, 35000, E1), opt("BtC", true, 35000, E1), opt("btc", false, 35000, E1), opt("btc", true, 350000, E1), opt("btc", true, 3500, E1), opt("btc", true, 35000, E2), opt("eth", true, 35000, E1)],
         V::Okx => { let mut u = of(IK::Spot, 4); u.push(Inst { base: "btc", quote: "usdt", kind: IK::Perp }); u.push(Inst { base: "btc", quote: "usdt", kind: IK::Fut(E1) }); u.push(Inst { base: "btc", quote: "usdt", kind: IK::Fut(E2) }); 
-            // KNOWN FINDING on the unchanged tree (excluded unless VX_C13_KNOWN is set): okx_market formats a future's / option's expiry with
+            // FIXED DEFECT (was a finding on the tree as found; now always checked): okx_market formats a future's / option's expiry with
             // chrono "%g%m%d" (%g = ISO-8601 WEEK-year). For an expiry whose ISO week-year differs from its calendar year (Friday 2027-01-01:
             // ISO week 53 of 2026) the subscription is registered under "BTC-USDT-260101" while the venue names the market "BTC-USDT-270101":
             // every message for the subscribed contract is answered with Unidentifiable.
@@ -321,7 +322,7 @@ pub fn run(seed: u64, thorough: bool) -> u64 {
     venue!(st, lists, V::BinanceSpot, SK::L1, BinanceSpot, OrderBooksL1, OrderBooksL1, BinanceOrderBookL1, true);
     venue!(st, lists, V::BinanceFut, SK::L1, BinanceFuturesUsd, OrderBooksL1, OrderBooksL1, BinanceOrderBookL1, true);
     venue!(st, lists, V::Okx, SK::Trades, Okx, PublicTrades, PublicTrades, OkxTrades, true);
-    // KNOWN FINDING on the unchanged tree (excluded unless VX_C13_KNOWN is set): kraken_market() lower-cases the computed market
+    // FIXED DEFECT (was a finding on the tree as found; now always checked): kraken_market() lower-cases the computed market
     // ("btc/usdt") while Kraken names the pair in upper case in its messages ("XBT/USD", see the connector's own payload examples), and the
     // message side builds the SubscriptionId from the pair verbatim. With MarketDataInstrument / Keyed<_, MarketDataInstrument> subscriptions
     // a trade / spread message for the SUBSCRIBED pair [0,[[..]],"trade","BTC/USDT"] is answered with Unidentifiable("trade|BTC/USDT"), and only a
